@@ -90,7 +90,7 @@ def convert_case(case: dict) -> dict:
         if case.get("want_pyxform"):
             res["pyxform"] = r._pyxform
         if case.get("post"):
-            res["post"] = case["post"](r)
+            res["post"] = case["post"](r, case["post_arg"]) if "post_arg" in case else case["post"](r)
     except PyXFormError as e:
         res.update(status="pyxform_error", errclass=type(e).__name__, message=str(e))
         if wl is not None:
